@@ -238,11 +238,14 @@ class HttpProxyPlugin(HttpProtocolHandlerPlugin):
             try:
                 raw = self.upstream.recv(self.flags.server_recvbuf_size)
             except TimeoutError as e:
+                # _close_and_release() drops self.upstream when the
+                # connection pool is enabled, note the address first.
+                upstream_addr = self.upstream.addr
                 self._close_and_release()
                 if e.errno == errno.ETIMEDOUT:
                     logger.warning(
                         '%s:%d timed out on recv' %
-                        self.upstream.addr,
+                        upstream_addr,
                     )
                     return True
                 raise e
